@@ -121,6 +121,24 @@ CHECKS = {
          "compiled runtime.rs (real clock) on seeded random histories; counterexamples are converted to histories and replayed "
          "natively (boundary-only ones, deadline == now, cannot be and are reported on the solver's verdict). Outside: driver timeout "
          "precision, Interval::tick's coroutine, Timeout/Sleep wrappers (planned), std's BTreeMap implementation."),
+ "C03": dict(
+    engine="mirsym",
+    technique="symbolic execution of the MIR of the wake-up protocols (AwakeFlag, Notify::wake_by_ref, Driver::poll/flush of both "
+              "drivers, Remote::schedule, Shared::drain_sync, State::*) under every interleaving of a bounded thread system; z3 "
+              "decides the symbolic data, schedules are enumerated exhaustively by DFS",
+    category="model_checking",
+    text="Bounded model checking over the real MIR, sequentially consistent: (1) driver layer, both drivers: 1 runtime thread "
+         "running {service work; Driver::poll(None)} (and the external-loop form {flush(); wait on fd; poll(0)}) for 2-3 "
+         "iterations against 1 (thorough: 2) waking threads, every atomic access and syscall a scheduling point, every "
+         "kernel-facing call inside Driver::poll replaced by a listed summary: in no interleaving does the runtime thread park in "
+         "the kernel wait while work published by a waker that has returned is unserviced. (2) executor layer: Remote::schedule "
+         "against the executor loop (drain_sync, State::unschedule, poll) with queue capacity 1-2 and a symbolic initial task "
+         "state word: the task is always polled again, the waker is invoked only after the id is queued, `pending` never drops "
+         "below the queue length nor underflows, a waker spinning on a full queue is always released.",
+    design_ref="DESIGN.md §1 C03",
+    note="NOT covered: weak-memory reorderings (the model is SC although the code uses Release/Acquire/AcqRel), block_on's loop "
+         "skeleton, compio-compat's event loops, crossbeam's ArrayQueue internals, > 2 wakers, queue sizes > 2. Counterexamples "
+         "are schedules over the real MIR; they cannot be replayed step-exactly on OS threads (no scheduling hooks in /repo)."),
 }
 
 NOT_APPLICABLE = {
